@@ -294,7 +294,8 @@ def run(ctx):
         if sel is not None:
             inner = fld(deref(arg(1)), 0)
             it_ok = SEL.canon_place(SEL.unref(sel["iter"])) == SEL.canon_place(inner) or SEL.unref(sel["iter"]) == inner
-            t2 = "multiboot2::tag_type::primitive_conversion_impls::<impl core::convert::From<multiboot2::tag_type::TagType> for u32>::from"
+            from . import tagtables as TT_
+            t2 = TT_.conv_key(F, "t2")
             sides = SEL.eq_sides(sel["pred"])
             pred_ok = False
             if sides is not None and sides[2] is None:
